@@ -1,5 +1,6 @@
 import TracklibVerif.Lemmas.ExprRpn
 import TracklibVerif.Lemmas.ExprExact
+import TracklibVerif.Lemmas.ExprErr
 /-! # C02 — algebraic feature expressions evaluate to ordinary arithmetic on the features
 
 Property theorems only (helpers: `Lemmas/Rpn.lean`, `Lemmas/Expr.lean`, `Lemmas/ExprRpn.lean`).
@@ -176,6 +177,36 @@ theorem operate_string_pointwise (L : Laws α) (tr : Tr α) (e : Ex) (v : Val α
     (hn : tr.n ≠ 0) (hnt : NoTemps tr) (hl : NoLitNames tr) (hd : denoteM tr e = .ok v) :
     ∃ vec, denote tr e = .ok vec ∧ operateRewritten tr (stmtString outputName e) false = (.ok (some vec), tr) :=
   ⟨v.toVec tr.n, tree_semantics_pointwise L tr hs hn e v hd, operate_string_value tr e v hw hp hq hn hnt hl hd⟩
+
+/-- **T6 (error propagation, stack machine)**: when the tree semantics of a well-formed tree is an *error*
+(division of a feature by the literal 0, `0 ** negative`, a complex or overflowing power, `SQRT` of a negative,
+`EXP` overflow, a function of a number-valued sub-expression, …) — every variable being bound on the track,
+every call applying one of the 24 known functions to something other than a bare number token — the stack
+machine raises the *same* error, having changed the track only by appended temporaries `#k…`. -/
+theorem evalRPN_postfix_error (e : Ex) (tr : Tr α) (st : List (Item α)) (k : Nat) (rest : List Str) (err : Err)
+    (hw : WFx e) (hc : CallsOK e) (hb : Bound tr e) (hn : tr.n ≠ 0) (hf : Fresh tr k) (hl : NoLitNames tr)
+    (hd : denoteM tr e = .error err) :
+    ∃ tr', evalRPN tr (Expr.post e ++ rest) st k = (.error err, tr') ∧ Step tr tr' k (k + nops e) :=
+  evalRPN_post_err e tr st k rest err hw hc hb hn hf hl hd
+
+/-- **T6' (error propagation, `operate`)**: under the same hypotheses `operate` on the postfix form of
+`lhs = e` (with or without a user-visible left-hand side) raises that error and — the temporaries being purged
+in the `finally` clause (fix 761b645) — leaves the track *exactly* as it was: nothing is stored under `lhs`. -/
+theorem operate_error (tr : Tr α) (lhs : Str) (e : Ex) (void : Bool) (err : Err)
+    (hop : isOperatorTok lhs = none) (hw : WFx e) (hc : CallsOK e) (hb : Bound tr e)
+    (hn : tr.n ≠ 0) (hnt : NoTemps tr) (hl : NoLitNames tr) (hd : denoteM tr e = .error err) :
+    operateTokens tr (lhs :: (Expr.post e ++ [['=']])) void = (.error err, tr) :=
+  operateTokens_error tr lhs e void err hop hw hc hb hn hnt hl hd
+
+/-- **T6'' (error propagation from the rewritten string)**: the same for the string `lhs=e` as it reaches
+`makeRPN` (character-level parser, `__double_prime`, stack machine, purge). -/
+theorem operate_string_error (tr : Tr α) (lhs : Str) (e : Ex) (void : Bool) (err : Err)
+    (hw : WFx e) (hp : PlainNames e) (hq : NoQuote e) (hla : AtomOK (String.ofList lhs)) (hg : GoodTok lhs)
+    (hop : isOperatorTok lhs = none) (hc : CallsOK e) (hb : Bound tr e)
+    (hn : tr.n ≠ 0) (hnt : NoTemps tr) (hl : NoLitNames tr) (hd : denoteM tr e = .error err) :
+    operateRewritten tr (stmtString lhs e) void = (.error err, tr) := by
+  rw [operate_string_tokens tr lhs e void hw hp hq hla hg]
+  exact operateTokens_error tr lhs e void err hop hw hc hb hn hnt hl hd
 
 /-! ## non-vacuity -/
 
